@@ -611,10 +611,152 @@ pub fn run(ctx: &mut LaneCtx) {
         },
         check_storm,
     );
+    ctx.run_sub(
+        SubSpec {
+            name: "dumper-interrupted",
+            cases: (96, 4_000),
+            rule: "targets with 1..12 parked/sleeper/spinner threads dumped 2..7 times while the DUMPING thread receives a signal with a non-restarting handler every 40..1540 us (at most 4000 per request) (so its system calls - waits for attach stops, sleeps, reads - return EINTR at arbitrary instants; sampled interleavings), group stop on/off; oracle = after every request, whatever it returned, no thread of the target is traced or stopped and all make progress; every case non-trivial; distinct = hash of case",
+            strategy: (
+                proptest::collection::vec(prop_oneof![2 => Just(K_PARKED), 2 => Just(K_SLEEPER)], 1..13),
+                any::<u8>(),
+                prop_oneof![2 => 0u16..60, 2 => 0u16..1500],
+                any::<bool>(),
+            )
+                .prop_map(|(threads, dumps, gap_us, stop_failspot)| IntrCase { threads, dumps, gap_us, stop_failspot })
+                .boxed(),
+            max_shrink_iters: 0,
+            log_current: true,
+        },
+        check_interrupted,
+    );
+}
+
+// ---------------------------------------------------------------------------
+// the dumping thread itself is interrupted by signals (EINTR at arbitrary system calls)
+// ---------------------------------------------------------------------------
+
+#[derive(Debug, Clone, PartialEq, Eq, Hash, Serialize, Deserialize)]
+pub struct IntrCase {
+    pub threads: Vec<u8>,
+    pub dumps: u8,
+    /// pause between two signals to the dumping thread, microseconds
+    pub gap_us: u16,
+    pub stop_failspot: bool,
+}
+
+extern "C" fn noop_handler(_: libc::c_int) {}
+
+pub fn check_interrupted(c: &IntrCase) -> Verdict {
+    use std::sync::atomic::AtomicBool;
+    init_scratch();
+    let scratch = Target::new_scratch();
+    let mut b = Builder::new();
+    let mut ids = vec![];
+    for (i, k) in c.threads.iter().enumerate() {
+        let st = b.add_stack(2, true, 2000 + i as u64);
+        ids.push((b.add_thread(*k, Some(format!("i{i}").into_bytes()), st.base + 0x1000, 300 + i as u64), *k));
+    }
+    let spec = b.spec.clone();
+    let t = match Target::spawn(&spec, scratch) {
+        Ok(t) => t,
+        Err(e) => return Verdict::Inconclusive(format!("target setup: {}", e.split(':').next().unwrap_or(""))),
+    };
+    if !t.wait_settled(&spec) {
+        return Verdict::Inconclusive("target did not settle".into());
+    }
+    let pid = t.pid;
+    let threads: Vec<(u32, i32, u8)> = ids.iter().map(|(id, k)| (*id, t.tid(*id), *k)).collect();
+    // a handler WITHOUT SA_RESTART on the dumping thread: interrupted system calls return EINTR
+    unsafe {
+        let mut sa: libc::sigaction = std::mem::zeroed();
+        sa.sa_sigaction = noop_handler as usize;
+        sa.sa_flags = 0;
+        libc::sigemptyset(&mut sa.sa_mask);
+        libc::sigaction(libc::SIGUSR2, &sa, std::ptr::null_mut());
+    }
+    let me = unsafe { libc::getpid() };
+    let my_tid = unsafe { libc::syscall(libc::SYS_gettid) } as i32;
+    let stop = Arc::new(AtomicBool::new(false));
+    let active = Arc::new(AtomicBool::new(false));
+    let sent = Arc::new(AtomicU64::new(0));
+    let gap = Duration::from_micros(c.gap_us as u64 % 1500 + 40);
+    let budget = Arc::new(std::sync::atomic::AtomicI64::new(0));
+    let storm = {
+        let (stop, active, sent, budget) = (stop.clone(), active.clone(), sent.clone(), budget.clone());
+        std::thread::spawn(move || {
+            // this thread must not take the signal itself
+            unsafe {
+                let mut set: libc::sigset_t = std::mem::zeroed();
+                libc::sigemptyset(&mut set);
+                libc::sigaddset(&mut set, libc::SIGUSR2);
+                libc::pthread_sigmask(libc::SIG_BLOCK, &set, std::ptr::null_mut());
+            }
+            while !stop.load(Ordering::SeqCst) {
+                // bounded interference: at most 4000 signals per request
+                if active.load(Ordering::SeqCst) && budget.fetch_sub(1, Ordering::SeqCst) > 0 {
+                    unsafe { libc::syscall(libc::SYS_tgkill, me, my_tid, libc::SIGUSR2) };
+                    sent.fetch_add(1, Ordering::Relaxed);
+                }
+                let t0 = Instant::now();
+                while t0.elapsed() < gap {
+                    std::hint::spin_loop();
+                }
+            }
+        })
+    };
+    let opts = DumpOpts { blamed: pid, ..Default::default() };
+    let n_dumps = c.dumps as usize % 6 + 2;
+    let mut classes = std::collections::BTreeSet::new();
+    let mut verdict = None;
+    for _ in 0..n_dumps {
+        let mut w = make_writer(pid, &opts);
+        let mut dest = Dest::new(vec![], 0);
+        budget.store(4000, Ordering::SeqCst);
+        active.store(true, Ordering::SeqCst);
+        let out = with_failspots(if c.stop_failspot { FS_STOP } else { 0 }, || run_dump(&mut w, &mut dest));
+        active.store(false, Ordering::SeqCst);
+        drop(w);
+        match out {
+            DumpOutcome::Panic(l, m) => {
+                verdict = Some(panic_verdict(&l, &m));
+                break;
+            }
+            DumpOutcome::Ok(img) => {
+                classes.insert("dump-ok".to_string());
+                let d = crate::vcore::md::decode(&img);
+                if let Ok(se) = crate::props::c11::soft_errors_of(&img, &d) {
+                    let mut flat = std::collections::BTreeMap::new();
+                    crate::props::c11::flatten(&se, "", &mut flat);
+                    if !flat.is_empty() {
+                        classes.insert("soft-errors".to_string());
+                    }
+                }
+            }
+            DumpOutcome::Err(_) => {
+                classes.insert("dump-err".to_string());
+            }
+        }
+        if let Err((sig, d)) = judge_alive(&t, &threads, &spec, &[]) {
+            verdict = Some(Verdict::viol(format!("C03:intr:{sig}"), format!("after a dump whose thread was interrupted by signals every {gap:?}: {d}")));
+            break;
+        }
+    }
+    stop.store(true, Ordering::SeqCst);
+    let _ = storm.join();
+    unsafe {
+        libc::signal(libc::SIGUSR2, libc::SIG_IGN);
+    }
+    count("intr-dumps", n_dumps as u64);
+    count("intr-signals-sent", sent.load(Ordering::SeqCst));
+    if let Some(v) = verdict {
+        return v;
+    }
+    Verdict::pass_c(Some(fp_json(c)), classes.into_iter().collect())
 }
 
 pub fn replay(sub: &str, case: &Value) -> Verdict {
     match sub {
+        "dumper-interrupted" => replay_case::<IntrCase>(case, check_interrupted),
         "rt-signal-storm" => replay_case::<StormCase>(case, check_storm),
         "faults-and-signals" => replay_case::<Case>(case, check),
         _ => Verdict::Inconclusive(format!("unknown sub {sub}")),
